@@ -20,6 +20,7 @@
 From Coq Require Import ZArith QArith List Bool.
 From TI Require Import lib.FArith model.Sizing model.SizingSpec
      proofs.SizingProofs proofs.SizingHistory proofs.SizingTheorems.
+From TI Require gen.Pure proofs.PureTie.
 Open Scope Z_scope.
 
 (** an automatically computed (or manual) size is a pair of positive integers, for every
@@ -270,3 +271,44 @@ Theorem C04_domain_inhabited :
   valid_size Text ex_env 288 288 (DSize ORIGINAL) DNone default_frame = (288, 144).
 Proof. exact dom_nonvacuous. Qed.
 Print Assumptions C04_domain_inhabited.
+
+(** *** the tie to the source, as theorems (T): the pixel <-> cell conversions of both style
+    families, regenerated from [block.py] / [common.py] on every run into [gen/Pure.v] by
+    [harness/tx/tx_pure.py], are the model's conversions for ALL arguments (the text family's
+    [ceil(pixels / 2)], a float computation in the code, under the IEEE standard model) *)
+Theorem C04_source_px_of_cols :
+  forall (FA : FloatArith) fam (e : env FA) c,
+    px_of_cols fam e c = match fam with
+                         | Text => TI.gen.Pure.block_pixels_cols_to_px c
+                         | Graphics => TI.gen.Pure.graphics_pixels_cols_to_px (fst (cell_or_default e)) c
+                         end.
+Proof. exact @TI.proofs.PureTie.px_of_cols_is_source. Qed.
+Print Assumptions C04_source_px_of_cols.
+
+Theorem C04_source_px_of_lines :
+  forall (FA : FloatArith) fam (e : env FA) l,
+    px_of_lines fam e l = match fam with
+                          | Text => TI.gen.Pure.block_pixels_lines_to_px l
+                          | Graphics => TI.gen.Pure.graphics_pixels_lines_to_px (snd (cell_or_default e)) l
+                          end.
+Proof. exact @TI.proofs.PureTie.px_of_lines_is_source. Qed.
+Print Assumptions C04_source_px_of_lines.
+
+Theorem C04_source_cols_of_px :
+  forall (FA : FloatArith) fam (e : env FA) p,
+    cols_of_px fam e p = match fam with
+                         | Text => TI.gen.Pure.block_pixels_cols_of_px p
+                         | Graphics => TI.gen.Pure.graphics_pixels_cols_of_px (fst (cell_or_default e)) p
+                         end.
+Proof. exact @TI.proofs.PureTie.cols_of_px_is_source. Qed.
+Print Assumptions C04_source_cols_of_px.
+
+Theorem C04_source_lines_of_px :
+  forall (FA : FloatArith) (SM : StandardModel FA) fam (e : env FA) p,
+    0 <= p <= 2 ^ 53 ->
+    lines_of_px fam e p = match fam with
+                          | Text => TI.gen.Pure.block_pixels_lines_of_px p
+                          | Graphics => TI.gen.Pure.graphics_pixels_lines_of_px (snd (cell_or_default e)) p
+                          end.
+Proof. exact @TI.proofs.PureTie.lines_of_px_is_source. Qed.
+Print Assumptions C04_source_lines_of_px.
